@@ -77,4 +77,99 @@ theorem utf8_truncated_rejected (a : Nat) (rest : List Nat) (hb : Bytes (a :: re
 
 example : (decode1 [0xE2, 0x82]).1 = none ∧ (decode1 [0xF1, 0x9F, 0x98]).1 = none := by decide
 
+
+/-! ## IDNA ToASCII (`uv__idna_toascii`, `uv__idna_toascii_label`) -/
+open UvModel.Puny
+
+/-- `toascii_bounded`: whatever the input, valid or not, and whatever the result (success or any
+    error): the bytes stored never reach `de` (`out.length ≤ cap`; since stores only append, this
+    holds at every intermediate point too), and on success the return value is the number of bytes
+    stored, the last of them the NUL — inside the buffer. -/
+theorem toascii_bounded (s : List Nat) (cap : Nat) :
+    (toascii s cap).2.cap = cap ∧ (toascii s cap).2.out.length ≤ cap ∧
+    (0 ≤ (toascii s cap).1 → ∃ pre, (toascii s cap).2.out = pre ++ [0] ∧
+        (toascii s cap).1 = ((pre.length + 1 : Nat) : Int) ∧ pre.length + 1 ≤ cap) := by
+  unfold toascii
+  split
+  · refine ⟨rfl, Nat.zero_le _, fun h => absurd (show (0 : Int) ≤ UV_EINVAL from h) (by decide)⟩
+  · have he := scan_ext [] s { cap := cap }
+    have hok : (scan [] s { cap := cap }).2.out.length ≤ (scan [] s { cap := cap }).2.cap :=
+      he.2.2 (Nat.zero_le _)
+    rw [he.1] at hok
+    refine ⟨he.1, hok, fun h => ?_⟩
+    obtain ⟨pre, h1, h2⟩ := scan_success [] s { cap := cap } h
+    refine ⟨pre, h1, h2, ?_⟩
+    rw [h1] at hok; simpa using hok
+
+/-- every store of the label encoder is bounded as well (any starting position `b` in the buffer) -/
+theorem toascii_label_bounded (bytes : List Nat) (b : Buf) (h : b.out.length ≤ b.cap) :
+    (label bytes b).2.cap = b.cap ∧ b.out <+: (label bytes b).2.out ∧
+    (label bytes b).2.out.length ≤ b.cap := by
+  have he := label_ext bytes b
+  exact ⟨he.1, he.2.1, he.1 ▸ he.2.2 h⟩
+
+/-- the only results: a length, UV_EINVAL, UV_E2BIG (32-bit overflow of `delta`), or the model's
+    out-of-fuel marker (which the correspondence check would expose; it never occurred) -/
+theorem toascii_result_codes (s : List Nat) (cap : Nat) :
+    0 ≤ (toascii s cap).1 ∨ (toascii s cap).1 = UV_EINVAL ∨ (toascii s cap).1 = UV_E2BIG ∨
+      (toascii s cap).1 = FUEL_OUT := by
+  unfold toascii
+  split
+  · right; left; rfl
+  · exact scan_rc _ _ _
+
+/-- a destination too small for even the terminator is UV_EINVAL -/
+example : (toascii [0x61] 1).1 = UV_EINVAL ∧ (toascii [0x61] 2) = (2, { out := [0x61, 0], cap := 2 }) := by
+  constructor <;> simp [toascii, scan, decode1, isDot, label, decodeAll, countLoop, writeAscii, Buf.put,
+    UV_EINVAL]
+
+/-- `toascii_rejects_illformed`: a host name that is not well-formed UTF-8 (`specAll = none`:
+    some position does not start a Table 3-7 sequence — including a sequence cut short by the end
+    of the string) is never converted: the result is an error.  (It is UV_EINVAL unless an earlier
+    label already failed with UV_E2BIG.) -/
+theorem toascii_rejects_illformed (s : List Nat) (cap : Nat) (hb : Bytes s) (h : specAll s = none) :
+    (toascii s cap).1 < 0 := by
+  unfold toascii
+  split
+  · show UV_EINVAL < 0; decide
+  · exact scan_rejects [] s _ hb h (fun l hl v n hd => (utf8_accepts_iff_wellformed l hl v n).mp hd)
+
+example : specAll [0x61, 0xE2, 0x82] = none ∧ specAll [0xE1, 0x41, 0x41] = none := by
+  constructor <;> simp [specAll, spec, isCont, lo2, hi2]
+
+/-! ## WTF-8 ⇄ UTF-16 -/
+open UvModel.Wtf8
+
+/-- `utf16_wtf8_roundtrip`: for every list of non-zero UTF-16 code units — surrogate pairs, unpaired
+    high or low surrogates in any position — in both length conventions (`z`: NUL-terminated / -1,
+    `¬z`: explicit length), `uv_utf16_to_wtf8` (allocating mode) succeeds with some bytes `w` plus
+    the terminator, reports `w.length`, and `uv_wtf8_to_utf16 w` gives the units back (plus the
+    terminator). -/
+theorem utf16_wtf8_roundtrip (z : Bool) (u : List Nat) (hu : Units u) :
+    ∃ w, toWtf8 z u none = ⟨0, w ++ [0], w.length⟩ ∧ toUtf16 w = some (u ++ [0]) :=
+  ⟨encU u, toWtf8_alloc z u hu, toUtf16_encU u hu⟩
+
+example : Units [0xD83D, 0xDE00, 0xD800, 0x41, 0xDFFF, 0xDBFF] := by
+  intro x hx; simp at hx; omega
+example : encU [0xD83D, 0xDE00, 0xD800] = [0xF0, 0x9F, 0x98, 0x80, 0xED, 0xA0, 0x80] := by decide
+
+/-- the same with a caller-supplied target of any sufficient size -/
+theorem utf16_wtf8_roundtrip_provided (z : Bool) (u : List Nat) (hu : Units u) (n : Nat)
+    (hn : lengthAsWtf8 z u ≤ n) :
+    ∃ w, toWtf8 z u (some n) = ⟨0, w ++ [0], w.length⟩ ∧ toUtf16 w = some (u ++ [0]) :=
+  ⟨encU u, toWtf8_provided z u hu n (by rw [← lengthAsWtf8_eq z u hu]; exact hn), toUtf16_encU u hu⟩
+
+/-- `length_functions_exact` (WTF-8 → UTF-16): for *every* byte string, `uv_wtf8_length_as_utf16`
+    is -1 exactly when the converter fails, and otherwise the number of units the converter stores
+    (terminator included). -/
+theorem length_functions_exact_wtf8 (l : List Nat) :
+    lengthAsUtf16 l = (toUtf16 l).map List.length := by
+  rw [lengthAsUtf16_eq l 0]; congr 1; funext us; omega
+
+/-- `length_functions_exact` (UTF-16 → WTF-8): `uv_utf16_length_as_wtf8` is the number of bytes
+    `uv_utf16_to_wtf8` stores before the terminator, which is also what it reports. -/
+theorem length_functions_exact_utf16 (z : Bool) (u : List Nat) (hu : Units u) :
+    (toWtf8 z u none).out.length = lengthAsWtf8 z u + 1 ∧ (toWtf8 z u none).reported = lengthAsWtf8 z u := by
+  rw [toWtf8_alloc z u hu, lengthAsWtf8_eq z u hu]; simp
+
 end UvModel.C18Text
